@@ -8,7 +8,8 @@ def _ops(v, js=(1, 2), extra_targets=()):
         ops.append({"op": "edit", "path": s, "label": "edit " + s})
     for st in v.stmts:
         if not st.phony:
-            ops.append({"op": "rm", "path": st.id, "label": "rm " + st.id})
+            for o in st.all_outs():
+                ops.append({"op": "rm", "path": o, "label": "rm " + o})
     plain = len(ops)
     for j in js:
         ops.append(ninja_op(j=j))
@@ -35,6 +36,9 @@ def templates(tier="quick"):
     shapes.append(("rsp_subdir", Variant("v0", [Stmt("out/lib", ex=["x.o"], rsp=("out/lib.rsp", "x.o")),
                                                Stmt("out/exe", ex=["out/lib"])])))
     shapes.append(("generator", Variant("v0", [Stmt("cfg", ex=["cfg.in"], generator=True, restat=True), Stmt("use", ex=["cfg"])])))
+    # several outputs: an explicit pair, and an implicit output next to the explicit one
+    shapes.append(("two_outputs", Variant("v0", [Stmt(["o1", "o2"], ex=["s"]), Stmt("use", ex=["o1", "o2"])])))
+    shapes.append(("implicit_output", Variant("v0", [Stmt("out", iouts=["out.idx"], ex=["s"]), Stmt("use", ex=["out"], im=["out.idx"])])))
     for name, v in shapes:
         ops, plain, crash = _ops(v)
         # from a fresh tree: kill the very first build; from a built tree: kill an incremental build
